@@ -589,6 +589,15 @@ theorem flows_no_credentials_on_wire :
    fun s n order auth pause l hl => lineOK_no_credentials (recordFlow_lines s n order auth pause l hl),
    fun s cb sessCtl controls l hl => lineOK_no_credentials (camFlow_lines s cb sessCtl controls l hl)⟩
 
+/-- The same for sessions with redirects and the client's automatic switch to TCP (`switchFlow`: the client
+re-DESCRIBEs the remembered redirect target, repeats SETUP / PLAY, sends keep-alives): for ANY entry URL, ANY
+`Location` values, Content-Base templates and control attributes, no request line carries user-info. -/
+theorem switchFlow_no_credentials_on_wire (s : Str) (locs : List Str) (cb : Option (List Str)) (sessCtl : Option Str)
+    (controls : List Str) (sw : Switch) (keepAlive : Bool) :
+    ∀ l ∈ (switchFlow s locs cb sessCtl controls sw keepAlive).lines,
+      ∀ a, targetAuthority l.2 = some a → (64 : UInt8) ∉ a :=
+  fun l hl => lineOK_no_credentials (switchFlow_lines s locs cb sessCtl controls sw keepAlive l hl)
+
 /-! ## the quantifier: which URL texts are covered -/
 
 /-- **Coverage.**  Every URL text base.ParseURL accepts, with a non-empty path not ending in `/`, a query not
